@@ -23,7 +23,11 @@ CHECKS["C04"] = ("proof", "provenance terms over MIR: each location is tied to t
                  "For all inputs: every child call's location is push_key/push_index of the container's own location with the key/index of the very iterator step that produced the child's value (enumerate counter; constant ordinal in unrolled code), hand-overs are located where the error came from, reports about the container are at its own location (tag kind error at push_key(tag)), and ErrorKind payload fields are the values found there; push_key/push_index build the right pointer variant.",
                  TB + "; derived code per catalogue entry", "§5 C04")
 
-NOT_YET = {p: 'check not yet built in this revision of /verif (construction order in DESIGN.md §8); will be claimed when its rule set is armed' for p in ['C%02d' % i for i in range(5, 21)]}
+CHECKS["C06"] = ("proof", "structural rules over the MIR of each container impl: collection build-up, iterator chain, arity guard, Option/Box delegation",
+                 "For all inputs: result collections are fresh, receive exactly the Ok payload of the same iteration's child by push/insert once per iteration, the loop runs over the input's own iterator (enumerate only) and the collection reaches Ok untouched; arrays/tuples compare len with their arity by != before any element work and report the whole sequence with that arity; tuple step k ↔ component k ↔ field k; Option gives None only on Null and otherwise delegates; maps key each entry by from_str of its own key and report an unparsable key by name; CS delegates to CS::from_str.",
+                 TB + "; std collection semantics (push/insert/try_into order, set collapse, key equality); Sequence::len agrees with the iterator", "§5 C06")
+
+NOT_YET = {p: 'check not yet built in this revision of /verif (construction order in DESIGN.md §8); will be claimed when its rule set is armed' for p in ['C05'] + ['C%02d' % i for i in range(7, 21)]}
 
 
 def main():
